@@ -49,13 +49,15 @@ int main(void)
             for (unsigned long i = 0; i < k; i++) printf("%s%" PRIu32, i ? " " : "", gp_random(&st));
             puts("");
         } else if (!strcmp(t[0], "frand") && n == 3) {
-            /* numerators of gp_frandom: f * 2^32 must be an exact integer in [0, 2^32) */
+            /* gp_frandom: OUT(x) marks a value outside [0,1) (the property); otherwise the numerator f * 2^32 when
+             * it is an integer (what the model predicts), else the value itself (a correspondence difference only) */
             GPRandomState st = gp_new_random_state(strtoull(t[1], NULL, 10));
             unsigned long k = strtoul(t[2], NULL, 10);
             for (unsigned long i = 0; i < k; i++) {
                 double f = gp_frandom(&st);
                 double sc = f * 4294967296.0;
-                if (!(f >= 0.0 && f < 1.0) || sc != (double)(uint64_t)sc) printf("%sOUT(%a)", i ? " " : "", f);
+                if (!(f >= 0.0 && f < 1.0)) printf("%sOUT(%a)", i ? " " : "", f);
+                else if (sc != (double)(uint64_t)sc) printf("%sx(%a)", i ? " " : "", f);
                 else printf("%s%" PRIu64, i ? " " : "", (uint64_t)sc);
             }
             puts("");
